@@ -174,7 +174,10 @@ pub fn gen_script(c: &mut Cur, p: &Profile, flavor: Flavor, nleaves_hint: usize)
     // a stream that knows how many items it has left says so (adapters may
     // consult size_hint; it must never change what they do)
     let hint = flavor == Flavor::S && c.coin(80);
-    LeafSpec { script, always: false, hint }
+    // some children notify from their destructor (a channel endpoint that wakes
+    // its peer when dropped): "any waker ever handed out" may be invoked then
+    let dropwake = c.coin(20);
+    LeafSpec { script, always: false, hint, dropwake }
 }
 
 fn inner_families(want: Flavor) -> Vec<(Family, u32)> {
@@ -330,7 +333,7 @@ pub fn gen_case(bytes: &[u8], p: &Profile) -> Case {
         for _ in 0..how_many {
             let d = c.choice(n);
             if let Some(ch) = root.children.get_mut(d) {
-                *ch = ChildSpec::Leaf(LeafSpec { script: vec![], always: true, hint: false });
+                *ch = ChildSpec::Leaf(LeafSpec { script: vec![], always: true, hint: false, dropwake: false });
             }
         }
         // mostly a few rounds; sometimes a long run (rotation state that only
